@@ -3,7 +3,7 @@ HOOKS = {
     "guard": "POPS_CORE_VERIF",
     "enable": "harnesses are compiled with -DPOPS_CORE_VERIF -I/repo/include (header-only library; tools/check.py build_harness)",
     "baseline_off_cmd": "bash /verif/tools/baseline_off.sh",
-    "source_commits": [],
+    "source_commits": ["a79a6ef"],
     "add_only": True,
 }
 ENGINES = [
